@@ -46,7 +46,7 @@ REACH = [("yamlpath/commands/yaml_set.py", "write_output_document,save_to_file,s
          ("yamlpath/commands/yaml_merge.py", "write_output_document,validateargs", "yaml_merge write-out"),
          ("yamlpath/commands/eyaml_rotate_keys.py", "main", "eyaml_rotate_keys.main")]
 SIZES = {"quick": dict(a=1600, b=128), "thorough": dict(a=12000, b=500)}
-REQUIRED_COUNTERS = ["a_cases", "b_scenarios", "faults_oserror", "faults_kill", "faults_write_offset", "baseline_backup_checked"]
+REQUIRED_COUNTERS = ["a_cases", "b_scenarios", "faults_oserror", "faults_kill", "faults_write_offset", "baseline_backup_checked", "faults_serializer_assertion", "b_symlinked_targets"]
 EXHAUSTIVE_NOTE = "every I/O event index k of each explored scenario instance (OSError and kill), plus 4 byte offsets of the dump"
 
 
@@ -64,10 +64,17 @@ def listing(box):
     return out
 
 
-def fresh(box, files):
+def fresh(box, files, symlinked=None):
+    """symlinked: name of the one file that is reached through a relative symbolic link (releases/current layouts)."""
     shutil.rmtree(box, ignore_errors=True)
     os.makedirs(box)
     for name, body in files.items():
+        if name == symlinked:
+            os.makedirs(os.path.join(box, "real"), exist_ok=True)
+            with open(os.path.join(box, "real", name), "w") as f:
+                f.write(body)
+            os.symlink(os.path.join("real", name), os.path.join(box, name))
+            continue
         with open(os.path.join(box, name), "w") as f:
             f.write(body)
 
@@ -189,11 +196,12 @@ def scenario(rng):
     backup = "-b" in argv
     if stale and backup:
         files[target + ".bak"] = "a stale backup from an earlier run\n"
-    return {"kind": kind, "tool": tool, "argv": argv, "files": files, "target": target, "backup": backup, "env": env}
+    return {"kind": kind, "tool": tool, "argv": argv, "files": files, "target": target, "backup": backup, "env": env,
+            "symlinked": target if backup and rng.random() < 0.25 else None}
 
 
 def run_in(box, sc, fault=None, child=False):
-    fresh(box, sc["files"])
+    fresh(box, sc["files"], sc.get("symlinked"))
     if child:
         spec = {"tool": sc["tool"], "argv": sc["argv"], "sandbox": box, "fault": fault, "env": sc["env"]}
         env = dict(os.environ)
@@ -233,7 +241,7 @@ def check_after_fault(ctx, sc, box, original, fault, fired, trace_before_fault):
 
 def fault_name(f):
     if "write_after" in f:
-        return "write-cut"
+        return "serializer-assertion" if f.get("exc") == "assertion" else "write-cut"
     return f.get("kind", "oserror")
 
 
@@ -241,7 +249,9 @@ def part_b(ctx, rng, box):
     sc = scenario(rng)
     original = sc["files"][sc["target"]].encode()
     base = run_in(box, sc)["result"]
-    case = {"part": "B", "scenario": sc["kind"], "argv": sc["argv"], "files": sc["files"]}
+    case = {"part": "B", "scenario": sc["kind"], "argv": sc["argv"], "files": sc["files"], "symlinked": sc.get("symlinked")}
+    if sc.get("symlinked"):
+        ctx.counters["b_symlinked_targets"] = ctx.counters.get("b_symlinked_targets", 0) + 1
     ctx.counters["b_scenarios"] = ctx.counters.get("b_scenarios", 0) + 1
     ctx.counters["b/" + sc["kind"]] = ctx.counters.get("b/" + sc["kind"], 0) + 1
     if base["exc"] or base["code"] != 0:
@@ -257,6 +267,9 @@ def part_b(ctx, rng, box):
         bpath = tpath + ".bak"
         if not os.path.exists(bpath) or open(bpath, "rb").read() != original:
             ctx.violation("B/backup-not-identical/%s" % sc["kind"], {"case": case, "summary": "the .bak is missing or differs from the pre-image"})
+            return
+        if os.path.islink(bpath) or os.path.samefile(bpath, tpath):
+            ctx.violation("B/backup-is-the-target-itself/%s" % sc["kind"], {"case": case, "summary": "the .bak is a link to the file being rewritten"})
             return
         k_copy = [e["k"] for e in trace if e["ev"] in ("shutil.copyfile", "shutil.copystat", "shutil.copymode") and e["path"] == sc["target"]]
         k_write = [e["k"] for e in trace if e["ev"] == "open" and e.get("write") and e["path"] == sc["target"]]
@@ -296,6 +309,17 @@ def part_b(ctx, rng, box):
         ctx.counters["faults_write_offset"] = ctx.counters.get("faults_write_offset", 0) + 1
         if any(e["ev"] == "FAULT" for e in r["trace"]):
             ctx.mark_nontrivial([sc["kind"], sc["files"], "write", off])
+            check_after_fault(ctx, sc, box, original, f, True, [])
+        else:
+            ctx.count("write_fault_not_reached")
+    # ---- the serializer itself giving up part-way (AssertionError), its output so far still buffered ------------------
+    for off in sorted({1, max(1, written_len // 2)}):
+        f = {"write_after": off, "path": sc["target"], "exc": "assertion"}
+        r = run_in(box, sc, fault=f)["result"]
+        ctx.evaluations += 1
+        ctx.counters["faults_serializer_assertion"] = ctx.counters.get("faults_serializer_assertion", 0) + 1
+        if any(e["ev"] == "FAULT" for e in r["trace"]):
+            ctx.mark_nontrivial([sc["kind"], sc["files"], "assertion", off])
             check_after_fault(ctx, sc, box, original, f, True, [])
         else:
             ctx.count("write_fault_not_reached")
